@@ -42,7 +42,7 @@ def pool():
         datetime.datetime(2020, 1, 1, 0, 0, 0, 400), datetime.datetime(2020, 1, 1, 0, 0, 0, 800), datetime.datetime(2020, 1, 1, 0, 0, 0, 1200),
     ] + DST_POOL + [
         [], [None], [0], [1], [1.0], [1, 2], [1, 2.0], [2], [1, [2]], [1, [2, 3]], [[1]], [[]], ['a'], ['a', 1], [True], [None, None], [[1, 2], 3],
-        {}, {'a': 1}, {'a': 1.0}, {'a': 2}, {'b': 1}, {'a': 1, 'b': 2}, {'b': 2, 'a': 1}, {'a': None}, {'a': [1]}, {'a': {'b': 1}}, {'a': {'b': 1.0}}, {'': 0}, {'a': True}, {'a': False}, {'a': 0}, {'a': [True]}, {'a': {'b': True}}, {'a': {'b': 0}}, {'a': 1, 'b': True}, {'a': '1'}, {'b': 1, 'a': 2}, {'b': 2, 'a': 1}, {'b': 0, 'a': 3}, {'c': 1, 'b': 5, 'a': 0}, {'c': 2, 'b': 0, 'a': 0}, {'z': [1], 'y': [2]}, {'z': [2], 'y': [1]},
+        {}, {'a': 1}, {'a': 1.0}, {'a': 2}, {'b': 1}, {'a': 1, 'b': 2}, {'b': 2, 'a': 1}, {'a': None}, {'a': [1]}, {'a': {'b': 1}}, {'a': {'b': 1.0}}, {'': 0}, {'a': True}, {'a': False}, {'a': 0}, {'a': [True]}, {'a': {'b': True}}, {'a': {'b': 0}}, {'a': 1, 'b': True}, {'a': '1'}, {'b': 1, 'a': 2}, {'b': 2, 'a': 1}, {'b': 0, 'a': 3}, {'c': 1, 'b': 5, 'a': 0}, {'c': 2, 'b': 0, 'a': 0}, {'z': [1], 'y': [2]}, {'z': [2], 'y': [1]}, {'b': 0, 'c': 1}, {'a': 1, 'b': 1}, {'a': 0, 'c': 2}, {'b': 5, 'c': 0}, {'a': 9, 'c': 0}, {'b': 1, 'd': 0},
         [1, 3], [1, 2, 3], [3], [2, 1], [[2]], [[1, 3]], [0, 5], [False], [0], [[True]], [[1]],
         f1, f2, re.compile('a'), re.compile('b'),
     ]
